@@ -7,6 +7,7 @@ import json, os, subprocess, sys, glob
 
 pid, tag = sys.argv[1], sys.argv[2]
 extra = sys.argv[3] if len(sys.argv) > 3 else ""
+multi = int(os.environ.get("SEED_MULTI", "1"))
 prop = None
 for l in open('/verif/properties.jsonl'):
     p = json.loads(l)
@@ -47,12 +48,12 @@ Mechanisms the property rests on (file:lines in this checkout):
 
 ## What to produce
 
-ONE realistic change to the library's NON-test source files (the kind of plausible optimisation, refactor, clean-up
+{("UP TO %d DIFFERENT changes (different mechanisms, different functions; deliver each in its own sub-directory `_out/m1`, `_out/m2`, ... and keep the worktree clean between them with `git stash`/`git checkout`), each of them a" % multi) if multi > 1 else "ONE"} realistic change to the library's NON-test source files (the kind of plausible optimisation, refactor, clean-up
 or "bug fix" a maintainer could write and a reviewer could accept) that **breaks the property above** while
 
 1. the module still compiles (`go build ./...` and `go vet` not required),
-2. the ENTIRE existing test suite still passes: `go test -vet=off -count=1 -timeout 25m ./...` (takes 3-5 minutes; parts
-   of it are randomised, so run it twice with your final change and report both results),
+2. the ENTIRE existing test suite still passes: `go test -vet=off -count=1 -timeout 25m ./...` (takes 4-10 minutes on this
+   loaded machine; parts of it are randomised{", run it once per change" if multi > 1 else ", so run it twice with your final change"} and report the results),
 3. the breakage needs something SPECIFIC to manifest - a particular multi-step sequence of operations, an unusual
    input or size, a particular configuration (slab size, collision pattern, nesting, wrapped values ...), a fault or
    crash at a particular point, a particular interleaving, or two cooperating edits that each look fine alone.
